@@ -86,6 +86,10 @@ pub mod cwin {
 pub mod c18 {
     include!(concat!(env!("ETHERCRAB_VERIF_DIR"), "/c18.rs"));
 }
+#[cfg(all(kani, ethercrab_verif_h1))]
+pub mod c17h {
+    include!(concat!(env!("ETHERCRAB_VERIF_DIR"), "/c17h.rs"));
+}
 #[cfg(all(kani, test))]
 mod playback_current {
     include!(concat!(env!("ETHERCRAB_VERIF_DIR"), "/_playback_current.rs"));
